@@ -58,6 +58,33 @@ def _inert(st):
     return False
 
 
+KERNEL_SPEC = """
+def IKinSpaceConstrained(%(S)s, %(M)s, %(T)s, %(th)s, %(ptol)s, %(rtol)s, %(lo)s, %(hi)s, %(it)s):
+    %(th)s = %(th)s.astype(np.float64)
+    for j in range(len(%(th)s)):
+        if %(th)s[j] < %(lo)s[j]:
+            %(th)s[j] = %(lo)s[j]
+        if %(th)s[j] > %(hi)s[j]:
+            %(th)s[j] = %(hi)s[j]
+    ee_current = FKinSpace(%(M)s, %(S)s, %(th)s)
+    error_vec = np.dot(Adjoint(ee_current), se3ToVec(MatrixLog6(np.dot(TransInv(ee_current), %(T)s))))
+    error_bool = (np.linalg.norm(error_vec[0:3]) > %(rtol)s or np.linalg.norm(error_vec[3:6]) > %(ptol)s)
+    i = 0
+    while error_bool and i < %(it)s:
+        %(th)s = %(th)s + np.dot(np.linalg.pinv(JacobianSpace(%(S)s, %(th)s)), error_vec)
+        for j in range(len(%(th)s)):
+            if %(th)s[j] < %(lo)s[j]:
+                %(th)s[j] = %(lo)s[j]
+            if %(th)s[j] > %(hi)s[j]:
+                %(th)s[j] = %(hi)s[j]
+        i = i + 1
+        ee_current = FKinSpace(%(M)s, %(S)s, %(th)s)
+        error_vec = np.dot(Adjoint(ee_current), se3ToVec(MatrixLog6(np.dot(TransInv(ee_current), %(T)s))))
+        error_bool = (np.linalg.norm(error_vec[0:3]) > %(rtol)s or np.linalg.norm(error_vec[3:6]) > %(ptol)s)
+    return %(th)s, not error_bool
+"""
+
+
 def _is_clamp_loop(st):
     return isinstance(st, ast.For) and any(isinstance(x, ast.If) for x in st.body) and all(isinstance(x, ast.If) or _inert(x) for x in st.body)
 
@@ -118,6 +145,29 @@ def check(model, rep):
     fm = model.module(FHP)
     from .common_ops import flat_function
     kc = flat_function(model.func(FHP, 'IKinSpaceConstrained'))      # private jitted helpers of the module read in place
+    # The structural rules below read one way of writing the clamped Newton iteration.  When the kernel has the NORMAL FORM of that
+    # reference iteration (E6: locals, temporaries, loop rotation `while True: ...; if done: break; ...`, clamping through a scalar temporary,
+    # named loop bounds, flipped comparisons are immaterial) they are applied to the reference text instead - equal normal forms mean equal
+    # values and effects for every input, so what holds structurally for the reference holds for the kernel.
+    if len(kc.params) == 9:
+        _spec = KERNEL_SPEC % {k_: v_ for k_, v_ in zip(('S', 'M', 'T', 'th', 'ptol', 'rtol', 'lo', 'hi', 'it'), kc.params)}
+        try:
+            _eq, _why = tv.fi_matches_spec(model, kc, _spec)
+        except AnalysisError as _ex:
+            _eq, _why = False, str(_ex)
+        rep.note('IKinSpaceConstrained %s the normal form of the reference clamped Newton iteration%s' % (
+            'has' if _eq else 'does NOT have', '' if _eq else ' (%s): the structural rules read the kernel as written' % _why[:160]))
+        if _eq:
+            import copy as _copy7
+            _fn = ast.parse(tv._dedent(_spec)).body[0]
+            ast.increment_lineno(_fn, kc.node.lineno - 1)
+            _kc2 = _copy7.copy(kc)
+            _kc2.node = _fn
+            for _par in ast.walk(_fn):
+                for _ch in ast.iter_child_nodes(_par):
+                    kc.module.parents[_ch] = _par
+            kc.module.parents[_fn] = kc.module.parents.get(kc.node)
+            kc = _kc2
     # ---------------------------------------------------------------- R07.1 / R07.2 kernels
     r024(model, rep, rule='R07.1')
     rep.rules['R07.1'] = ('angular half of the error twist vs orientation tolerance, linear half vs position tolerance - in the '
@@ -135,7 +185,7 @@ def check(model, rep):
         fi = arm.methods.get(name)
         if fi is None:
             raise AnalysisError('anchor vanished: Arm.' + name)
-        for c in [x for x in walk_own(fi.node) if isinstance(x, ast.Call) and isinstance(x.func, ast.Attribute)
+        for c in [x for x in ast.walk(fi.node) if isinstance(x, ast.Call) and isinstance(x.func, ast.Attribute)          # local closures included
                   and x.func.attr in ('IKinSpace', 'IKinSpaceConstrained', 'IKinBody')]:
             r = model.resolve_call(fi, c)
             if not (r and r[0] == 'func'):
